@@ -108,6 +108,12 @@ Theorem C10_xml_lang : forall ft scope fl a lex c l, is_qname_attr a = false ->
   spec_xml_value ft scope fl a (VLit lex (Some (prov_qn "InternationalizedString")) (Some (String c l)))
   = Some (content_value (VLit lex (Some (prov_qn "InternationalizedString")) (Some (String c l)))).
 Proof. exact spec_xml_lang. Qed.
+Theorem C10_xml_foreign : forall ft scope fl a lex d, is_qname_attr a = false -> intl_string d = false ->
+  ns_prefix (qn_ns d) <> "" -> contains_char colon (ns_prefix (qn_ns d)) = false ->
+  lookup (ns_prefix (qn_ns d)) scope = Some (ns_uri (qn_ns d)) ->
+  String.eqb (ns_uri (qn_ns d)) XmlSpec.xsd_ns = false ->
+  spec_xml_value ft scope fl a (VLit lex (Some d) None) = Some (content_value (VLit lex (Some d) None)).
+Proof. exact spec_xml_foreign. Qed.
 Theorem C10_xml_ref : forall ft scope fl l formals q, XStd scope ->
   is_qname_attr (prov_qn l) = true -> existsb (String.eqb l) formals = true ->
   existsb (String.eqb l) spec_time_args = false ->
